@@ -6,6 +6,17 @@ sys.path.insert(0, HERE)
 from sa.props import PROPS
 from sa.manifest_text import LEVEL, NOT_APPLICABLE
 
+def _rules_note(pid):
+    """Rule ids actually run for the property, read from its last evidence file (kept in sync with sa/props.py)."""
+    p = os.path.join(HERE, "evidence", pid + ".json")
+    try:
+        ev = json.load(open(p))
+        rules = sorted(ev["coverage"]["rules"])
+        return " Rules run by this check (from its evidence): " + ", ".join(rules) + "."
+    except Exception:
+        return ""
+
+
 props = [json.loads(l) for l in open(os.path.join(HERE, "properties.jsonl"))]
 checks = []
 na = []
@@ -21,7 +32,7 @@ for p in props:
             "replay_cmd_template": "/venv/bin/python check.py --explain {path}",
             "engine": "sa",
             "level_claimed": {"category": "other", "text": lv["text"], "design_ref": lv["design_ref"]},
-            "level_note": lv["note"],
+            "level_note": lv["note"] + _rules_note(pid),
             "technique": lv["technique"],
         })
     else:
